@@ -56,8 +56,8 @@ def prevOf (nodes : List Node) (i : Nat) : Int := ((nodes[i]?).map (·.con.prevI
 
 /-! ## a publish moves `min_send_id` by exactly one -/
 
-theorem isData_hello (u : Nat) : isData (c4_helloW u) = false := by
-  simp [isData, c4_helloW, OF.Facts.MSG_ID_HELLO]
+theorem isData_hello (u : Nat) : isData (helloW u) = false := by
+  simp [isData, helloW, OF.Facts.MSG_ID_HELLO]
 
 theorem send_count (L base i : Nat) (nd b : Node) (p : Pending) (t : Int) (hn : NodeLock L i nd) (hp : nd.pending = some p)
     (hL : i + 1 < L) (he : EdgeLock nd b) (hnames : ∀ d, dictOf p.res = some d → ∀ x ∈ d, x.1 ≠ "") :
@@ -76,7 +76,7 @@ theorem send_count (L base i : Nat) (nd b : Node) (p : Pending) (t : Int) (hn : 
   have hge : b.con.prevId + 1 ≤ nd.pub.minSendId := by
     rcases hcase with ⟨_, h⟩ | ⟨_, h, _⟩ <;> omega
   have hlow : ∀ r ∈ qa, ReqLow nd.pub.minSendId r := fun r hr => ⟨(hreq r hr).1, by have := (hreq r hr).2; omega⟩
-  have hl := send0_lock i nd.pub qa ((dictOf p.res).map (relabel base)) t hqa hlow (c4_relabel_names base p.res hnames)
+  have hl := send0_lock i nd.pub qa ((dictOf p.res).map (relabel base)) t hqa hlow (relabel_names_ne base p.res hnames)
   generalize Send.send0 nd.pub none (Send.Payload.deferred ((dictOf p.res).map (relabel base))) false [0] t = r at hl ⊢
   have hpub : (afterSend nd p r).pub = r.1 := by unfold afterSend; split <;> rfl
   rw [hpub]
@@ -96,7 +96,7 @@ theorem send_count (L base i : Nat) (nd b : Node) (p : Pending) (t : Int) (hn : 
     rw [hany, hmin]; simp
 
 theorem step_count (L : Nat) (tp : Topo) (hc : IsChain tp L) (proc : Proc) (st : St) (j : Nat) (e : Ev) (hinv : NetInv tp st)
-    (h : ChainLock L st) (hne : c4_isRestart e = false) :
+    (h : ChainLock L st) (hne : isRestart e = false) :
     msOf (step tp proc st e).1.nodes j = msOf st.nodes j + (if publishesAt j e (step tp proc st e).2 then 1 else 0) := by
   cases e with
   | restart i g => cases hne
@@ -192,7 +192,7 @@ theorem prevOf_set (nodes : List Node) (j : Nat) (nd nd' : Node) (i : Nat) (hj :
   · simp only [hji, ↓reduceIte]
 
 /-- only a node's own `recv` (or its restart) moves its `prev_id` -/
-theorem prevOf_step (tp : Topo) (proc : Proc) (st : St) (K : Nat) (e : Ev) (hne : c4_isRestart e = false) (hK : e ≠ .nodeRecv K) :
+theorem prevOf_step (tp : Topo) (proc : Proc) (st : St) (K : Nat) (e : Ev) (hne : isRestart e = false) (hK : e ≠ .nodeRecv K) :
     prevOf (step tp proc st e).1.nodes K = prevOf st.nodes K := by
   cases e with
   | restart i g => cases hne
@@ -281,7 +281,7 @@ theorem lock_window (L : Nat) (st : St) (h : ChainLock L st) : ∀ (d j : Nat), 
 /-! ## runs -/
 
 theorem reachNR_run (tp : Topo) (proc : Proc) : ∀ (evs : List Ev) (st : St), ReachNR tp proc st →
-    (∀ e ∈ evs, c4_isRestart e = false) → ReachNR tp proc (run tp proc st evs).1 := by
+    (∀ e ∈ evs, isRestart e = false) → ReachNR tp proc (run tp proc st evs).1 := by
   intro evs
   induction evs with
   | nil => intro st h _; exact h
@@ -291,7 +291,7 @@ theorem reachNR_run (tp : Topo) (proc : Proc) : ∀ (evs : List Ev) (st : St), R
 
 /-- the number of frame sets `j` publishes along a schedule is the distance its `min_send_id` moves -/
 theorem run_count (L : Nat) (tp : Topo) (hc : IsChain tp L) (proc : Proc) (hp : ProcOK proc) (hf : Fwd L proc) (j : Nat) :
-    ∀ (evs : List Ev) (st : St), ReachNR tp proc st → (∀ e ∈ evs, c4_isRestart e = false) →
+    ∀ (evs : List Ev) (st : St), ReachNR tp proc st → (∀ e ∈ evs, isRestart e = false) →
     msOf (run tp proc st evs).1.nodes j = msOf st.nodes j + (pubCount tp proc j st evs : Nat) := by
   intro evs
   induction evs with
@@ -309,7 +309,7 @@ theorem run_count (L : Nat) (tp : Topo) (hc : IsChain tp L) (proc : Proc) (hp : 
     split <;> simp <;> omega
 
 theorem prevOf_run (tp : Topo) (proc : Proc) (K : Nat) : ∀ (evs : List Ev) (st : St),
-    (∀ e ∈ evs, c4_isRestart e = false ∧ e ≠ .nodeRecv K) → prevOf (run tp proc st evs).1.nodes K = prevOf st.nodes K := by
+    (∀ e ∈ evs, isRestart e = false ∧ e ≠ .nodeRecv K) → prevOf (run tp proc st evs).1.nodes K = prevOf st.nodes K := by
   intro evs
   induction evs with
   | nil => intro st _; rfl
@@ -323,13 +323,13 @@ theorem prevOf_run (tp : Topo) (proc : Proc) (K : Nat) : ∀ (evs : List Ev) (st
 
 /-- a continuation in which node `K` is stalled: it makes no `recv` call (and nobody is restarted); every other node - and
 `K`'s own `send` - may step arbitrarily often, in any order, at any clock readings -/
-def StalledAt (K : Nat) (evs : List Ev) : Prop := ∀ e ∈ evs, c4_isRestart e = false ∧ e ≠ .nodeRecv K
+def StalledAt (K : Nat) (evs : List Ev) : Prop := ∀ e ∈ evs, isRestart e = false ∧ e ≠ .nodeRecv K
 
 /-- **C04 (the invariant behind the network-level statements)**: every state a chain of forwarding filters reaches without
 restarts is in lock-step (`ChainLock`) -/
 theorem C04_net_chain_lockstep (L : Nat) (proc : Proc) (hp : ProcOK proc) (hf : Fwd L proc) (st : St)
-    (hr : ReachNR (c4_chainTopo L) proc st) : ChainLock L st :=
-  chainLock_reachNR L (c4_chainTopo L) (isChain_chainTopo L) proc hp hf st hr
+    (hr : ReachNR (chainTopo L) proc st) : ChainLock L st :=
+  chainLock_reachNR L (chainTopo L) (isChain_chainTopo L) proc hp hf st hr
 
 /-- **C04 (a stalled consumer stalls every publisher feeding it, through any number of relays)**: chain `0 → … → L-1`, every
 relay forwards (`Fwd`), topic names non-empty (`ProcOK`); from EVERY state reachable without restarts, over EVERY continuation
@@ -337,10 +337,10 @@ in which node `K` makes no `recv` call — however long, whatever the other node
 publishes at most `1 + 2 (K - 1 - j)` further frame sets: ONE for the publisher next to the stalled node, two more per relay
 in between. -/
 theorem C04_net_chain_stall_bounded (L : Nat) (proc : Proc) (hp : ProcOK proc) (hf : Fwd L proc) (st : St)
-    (hr : ReachNR (c4_chainTopo L) proc st) (K : Nat) (hK : K < L) (evs : List Ev) (hs : StalledAt K evs) (j : Nat) (hj : j < K) :
-    pubCount (c4_chainTopo L) proc j st evs ≤ 1 + 2 * (K - 1 - j) := by
+    (hr : ReachNR (chainTopo L) proc st) (K : Nat) (hK : K < L) (evs : List Ev) (hs : StalledAt K evs) (j : Nat) (hj : j < K) :
+    pubCount (chainTopo L) proc j st evs ≤ 1 + 2 * (K - 1 - j) := by
   have hc := isChain_chainTopo L
-  have hne : ∀ e ∈ evs, c4_isRestart e = false := fun e he => (hs e he).1
+  have hne : ∀ e ∈ evs, isRestart e = false := fun e he => (hs e he).1
   obtain ⟨d, rfl⟩ : ∃ d, K = j + d + 1 := ⟨K - 1 - j, by omega⟩
   have h0 := chainLock_reachNR L _ hc proc hp hf st hr
   have h1 := chainLock_reachNR L _ hc proc hp hf _ (reachNR_run _ proc evs st hr hne)
@@ -353,8 +353,8 @@ theorem C04_net_chain_stall_bounded (L : Nat) (proc : Proc) (hp : ProcOK proc) (
 
 /-- the same, for the sink of the chain and every publisher upstream: the constants `1, 3, 5, …` counted from the sink -/
 theorem C04_net_chain_sink_stall_bounded (L : Nat) (proc : Proc) (hp : ProcOK proc) (hf : Fwd L proc) (st : St)
-    (hr : ReachNR (c4_chainTopo L) proc st) (hL : 2 ≤ L) (evs : List Ev) (hs : StalledAt (L - 1) evs) (j : Nat) (hj : j < L - 1) :
-    pubCount (c4_chainTopo L) proc j st evs ≤ 1 + 2 * (L - 2 - j) := by
+    (hr : ReachNR (chainTopo L) proc st) (hL : 2 ≤ L) (evs : List Ev) (hs : StalledAt (L - 1) evs) (j : Nat) (hj : j < L - 1) :
+    pubCount (chainTopo L) proc j st evs ≤ 1 + 2 * (L - 2 - j) := by
   have := C04_net_chain_stall_bounded L proc hp hf st hr (L - 1) (by omega) evs hs j hj
   have e : L - 1 - 1 - j = L - 2 - j := by omega
   rw [e] at this; exact this
@@ -363,7 +363,7 @@ theorem C04_net_chain_sink_stall_bounded (L : Nat) (proc : Proc) (hp : ProcOK pr
 length - every wire message queued at any SUB socket that its node could still adopt (id above its `prev_id`) belongs to
 ONE frame set: the next one.  The number of frame sets queued towards a consumer never grows with the length of the run. -/
 theorem C04_net_chain_one_block_queued (L : Nat) (proc : Proc) (hp : ProcOK proc) (hf : Fwd L proc) (st : St)
-    (hr : ReachNR (c4_chainTopo L) proc st) (i : Nat) (nd : Node) (hi : st.nodes[i]? = some nd) :
+    (hr : ReachNR (chainTopo L) proc st) (i : Nat) (nd : Node) (hi : st.nodes[i]? = some nd) :
     ∀ s ∈ nd.con.srcs, ∀ w ∈ s.queue, nd.con.prevId < w.mid → w.mid = nd.con.prevId + 1 := by
   have h := chainLock_reachNR L _ (isChain_chainTopo L) proc hp hf st hr
   intro s hs w hw hlt
@@ -394,7 +394,7 @@ theorem C04_net_chain_one_block_queued (L : Nat) (proc : Proc) (hp : ProcOK proc
 /-- … and while that frame set is queued, no request of the consumer is queued at its publisher: the publisher cannot
 publish again before the consumer has taken the set -/
 theorem C04_net_chain_waits_for_consumer (L : Nat) (proc : Proc) (hp : ProcOK proc) (hf : Fwd L proc) (st : St)
-    (hr : ReachNR (c4_chainTopo L) proc st) (u : Nat) (a b : Node) (ha : st.nodes[u]? = some a) (hb : st.nodes[u + 1]? = some b)
+    (hr : ReachNR (chainTopo L) proc st) (u : Nat) (a b : Node) (ha : st.nodes[u]? = some a) (hb : st.nodes[u + 1]? = some b)
     (hw : ∃ s ∈ b.con.srcs, ∃ w ∈ s.queue, b.con.prevId < w.mid) : a.pub.queues = [[]] := by
   have h := chainLock_reachNR L _ (isChain_chainTopo L) proc hp hf st hr
   rcases h.edge u a b ha hb with ⟨qa, s', old, blk, hqa, hsrcs, hq, hold, _, hcase⟩
@@ -427,7 +427,7 @@ def PubCase (tp : Topo) (proc : Proc) (st : St) (e : Ev) (u : Nat) (nd nd' : Nod
         ((Send.send0 nd.pub nd.sendState (payloadOf st.tbl.length p.res) false [0] t).2.filterMap (wireOf u)).any isData)
 
 theorem step_pub_cases (tp : Topo) (proc : Proc) (st : St) (e : Ev) (u : Nat) (nd : Node) (hu : st.nodes[u]? = some nd)
-    (hne : c4_isRestart e = false) :
+    (hne : isRestart e = false) :
     ∃ nd', (step tp proc st e).1.nodes[u]? = some nd' ∧ PubCase tp proc st e u nd nd' := by
   unfold PubCase
   cases e with
@@ -539,7 +539,7 @@ def TeePost (st : St) (u : Nat) (fid : String) (lo : Int) : Prop :=
 /-- a continuation in which node `B` is stalled (no `recv`, nobody restarted) and every clock reading of `u`'s `send`
 calls lies within one connection time-out above `lo` -/
 def TeeStall (u B : Nat) (lo : Int) (evs : List Ev) : Prop :=
-  ∀ e ∈ evs, c4_isRestart e = false ∧ e ≠ .nodeRecv B ∧ ∀ t, e = .nodeSend u t → lo ≤ t ∧ t - OF.Facts.ZMQ_CONN_TIMEOUT ≤ lo
+  ∀ e ∈ evs, isRestart e = false ∧ e ≠ .nodeRecv B ∧ ∀ t, e = .nodeSend u t → lo ≤ t ∧ t - OF.Facts.ZMQ_CONN_TIMEOUT ≤ lo
 
 theorem noData_of_pubMids_nil (u : Nat) (outs : List Send.Out) (h : Send.pubMids outs = []) :
     (outs.filterMap (wireOf u)).any isData = false := by
@@ -561,7 +561,7 @@ theorem noData_of_pubMids_nil (u : Nat) (outs : List Send.Out) (h : Send.pubMids
   | retNone => cases hwo
 
 theorem tee_post_step (tp : Topo) (proc : Proc) (st : St) (u B g jj : Nat) (lo : Int) (e : Ev)
-    (h : TeePost st u (cidOf B ++ uidOf g jj) lo) (hne : c4_isRestart e = false) (hB : e ≠ .nodeRecv B)
+    (h : TeePost st u (cidOf B ++ uidOf g jj) lo) (hne : isRestart e = false) (hB : e ≠ .nodeRecv B)
     (ht : ∀ t, e = .nodeSend u t → lo ≤ t ∧ t - OF.Facts.ZMQ_CONN_TIMEOUT ≤ lo) :
     TeePost (step tp proc st e).1 u (cidOf B ++ uidOf g jj) lo ∧ publishesAt u e (step tp proc st e).2 = false := by
   rcases h with ⟨nd, q, hu, hq, hH, hk⟩
@@ -581,7 +581,7 @@ theorem tee_post_step (tp : Topo) (proc : Proc) (st : St) (u B g jj : Nat) (lo :
     exact hk r (by rw [h2]; exact List.mem_append_right _ hr)
 
 theorem tee_pre_step (tp : Topo) (proc : Proc) (st : St) (u B g jj : Nat) (lo : Int) (e : Ev)
-    (h : TeePre st u (cidOf B ++ uidOf g jj) lo) (hne : c4_isRestart e = false) (hB : e ≠ .nodeRecv B)
+    (h : TeePre st u (cidOf B ++ uidOf g jj) lo) (hne : isRestart e = false) (hB : e ≠ .nodeRecv B)
     (ht : ∀ t, e = .nodeSend u t → lo ≤ t ∧ t - OF.Facts.ZMQ_CONN_TIMEOUT ≤ lo) :
     (TeePre (step tp proc st e).1 u (cidOf B ++ uidOf g jj) lo ∧ publishesAt u e (step tp proc st e).2 = false) ∨
     TeePost (step tp proc st e).1 u (cidOf B ++ uidOf g jj) lo := by
@@ -734,14 +734,14 @@ theorem chPrefix_reach (tp : Topo) (n : Nat) : ReachNR tp chProc (run tp chProc 
 /-- chain `S → F → K`: after 5 fair rounds `K` has been handed 2 frame sets; then it stalls; in 200 further steps of `S` and
 `F` (50 round-robin rounds) `F` publishes exactly 1 and `S` exactly 3 = `1 + 2·1` further sets: both bounds of
 `C04_net_chain_stall_bounded` are attained -/
-example : setsHanded 2 (chPrefix 5) (run (c4_chainTopo 3) chProc (init (c4_chainTopo 3)) (chPrefix 5)).2 = 2 ∧
+example : setsHanded 2 (chPrefix 5) (run (chainTopo 3) chProc (init (chainTopo 3)) (chPrefix 5)).2 = 2 ∧
     (chStall 50 2000).length = 200 ∧
-    pubCount (c4_chainTopo 3) chProc 1 (run (c4_chainTopo 3) chProc (init (c4_chainTopo 3)) (chPrefix 5)).1 (chStall 50 2000) = 1 ∧
-    pubCount (c4_chainTopo 3) chProc 0 (run (c4_chainTopo 3) chProc (init (c4_chainTopo 3)) (chPrefix 5)).1 (chStall 50 2000) = 3 := by
+    pubCount (chainTopo 3) chProc 1 (run (chainTopo 3) chProc (init (chainTopo 3)) (chPrefix 5)).1 (chStall 50 2000) = 1 ∧
+    pubCount (chainTopo 3) chProc 0 (run (chainTopo 3) chProc (init (chainTopo 3)) (chPrefix 5)).1 (chStall 50 2000) = 3 := by
   decide +kernel
 
 /-- the theorem applies to it -/
-example : pubCount (c4_chainTopo 3) chProc 0 (run (c4_chainTopo 3) chProc (init (c4_chainTopo 3)) (chPrefix 5)).1 (chStall 50 2000) ≤ 3 :=
+example : pubCount (chainTopo 3) chProc 0 (run (chainTopo 3) chProc (init (chainTopo 3)) (chPrefix 5)).1 (chStall 50 2000) ≤ 3 :=
   C04_net_chain_stall_bounded 3 chProc chProc_ok (chProc_fwd 3) _ (chPrefix_reach _ 5) 2 (by decide) (chStall 50 2000)
     (by
       intro e he
@@ -754,10 +754,10 @@ example : pubCount (c4_chainTopo 3) chProc 0 (run (c4_chainTopo 3) chProc (init 
 /-- the stall ends when the consumer takes frames again: after the 200 steps above nothing more is published by the source
 in 3 fair rounds without `K` … but with `K` polling again, the back-pressure is released hop by hop and in the fourth fair
 round the source publishes again -/
-example : pubCount (c4_chainTopo 3) chProc 0
-      (run (c4_chainTopo 3) chProc (init (c4_chainTopo 3)) (chPrefix 5 ++ chStall 50 2000)).1 (chStall 3 2100) = 0 ∧
-    pubCount (c4_chainTopo 3) chProc 0
-      (run (c4_chainTopo 3) chProc (init (c4_chainTopo 3)) (chPrefix 5 ++ chStall 50 2000)).1 (List.replicate 4 (chRound 2100)).flatten = 1 := by
+example : pubCount (chainTopo 3) chProc 0
+      (run (chainTopo 3) chProc (init (chainTopo 3)) (chPrefix 5 ++ chStall 50 2000)).1 (chStall 3 2100) = 0 ∧
+    pubCount (chainTopo 3) chProc 0
+      (run (chainTopo 3) chProc (init (chainTopo 3)) (chPrefix 5 ++ chStall 50 2000)).1 (List.replicate 4 (chRound 2100)).flatten = 1 := by
   decide +kernel
 
 /-! ### why the relay's loop matters: `outputs_timeout` -/
@@ -784,8 +784,8 @@ def pubCountDrop (tp : Topo) (proc : Proc) (r k j : Nat) : St × Nat → List Ev
 
 /-- NEGATIVE witness: the same chain, the same stall, but the relay `F` gives a blocked frame up after 2 failed attempts (an
 `outputs_timeout`): the source is not held any more - 26 sets in the same 200 steps, 51 in 400 (the relay drops them all) -/
-example : pubCountDrop (c4_chainTopo 3) chProc 1 2 0 ((run (c4_chainTopo 3) chProc (init (c4_chainTopo 3)) (chPrefix 5)).1, 0) (chStall 50 2000) = 26 ∧
-    pubCountDrop (c4_chainTopo 3) chProc 1 2 0 ((run (c4_chainTopo 3) chProc (init (c4_chainTopo 3)) (chPrefix 5)).1, 0) (chStall 100 2000) = 51 := by
+example : pubCountDrop (chainTopo 3) chProc 1 2 0 ((run (chainTopo 3) chProc (init (chainTopo 3)) (chPrefix 5)).1, 0) (chStall 50 2000) = 26 ∧
+    pubCountDrop (chainTopo 3) chProc 1 2 0 ((run (chainTopo 3) chProc (init (chainTopo 3)) (chPrefix 5)).1, 0) (chStall 100 2000) = 51 := by
   decide +kernel
 
 /-! ### one of several consumers -/
